@@ -25,6 +25,13 @@ def _views(proc):
     return v
 
 
+def _snapshot_views(proc):
+    """What a checkpoint must preserve, as far as it shows through the public accessors."""
+    return {'state': proc.state.value, 'outputs': _jsonable(proc.outputs), 'trace': _jsonable(list(getattr(proc, 'trace', ()))),
+            'ctx': _jsonable(dict(proc.ctx.__dict__)) if getattr(proc, 'ctx', None) is not None else None,
+            'raw_inputs': _jsonable(proc.raw_inputs) if proc.raw_inputs is not None else None}
+
+
 def run_with_crashes(make_proc, crash_points, resume_for_wait, transport=None, budget=4000, max_restores=64, persister=None, lag=0, resume_mode='plain'):
     """make_proc(loop) -> process.  resume_for_wait(j) -> list of resume args for the j-th wait (0-based).
 
@@ -41,6 +48,8 @@ def run_with_crashes(make_proc, crash_points, resume_for_wait, transport=None, b
     transport = transport or (lambda b: pickle.loads(pickle.dumps(b)))
     proc = None
     restores = 0
+    at_checkpoint = [None]   # what the process reported when the checkpoint was written
+    mismatches = []          # ... compared with what the process loaded from it reports
     while True:
         rec = programs.Recorder()
         crash = [False]
@@ -53,6 +62,10 @@ def run_with_crashes(make_proc, crash_points, resume_for_wait, transport=None, b
                     bundle = persister.load_checkpoint(snapshot[0]) if persister is not None else transport(snapshot[0])
                     proc = bundle.unbundle(plumpy.LoadSaveContext(loop=drv.loop))
                     restores += 1
+                    now = _snapshot_views(proc)
+                    if at_checkpoint[0] is not None and now != at_checkpoint[0]:
+                        keys = sorted(k for k in now if now[k] != at_checkpoint[0][k])
+                        mismatches.append([restores, keys, {k: now[k] for k in keys}, {k: at_checkpoint[0][k] for k in keys}])
             finally:
                 programs.CURRENT_REC = None
 
@@ -66,9 +79,15 @@ def run_with_crashes(make_proc, crash_points, resume_for_wait, transport=None, b
                         if lagging[0][1] <= 0:
                             crash[0] = True
                         return
-                    if idx in crash_points and persister is not None:
-                        persister.save_checkpoint(p)
-                        snapshot[0] = p.pid
+                    if idx in crash_points:
+                        at_checkpoint[0] = _snapshot_views(p)
+                    if idx in crash_points and (persister is not None or lag > 0):
+                        if persister is not None:
+                            persister.save_checkpoint(p)
+                            snapshot[0] = p.pid
+                        else:
+                            # a plain Bundle kept in memory while the instance runs on (serialised only when it is loaded)
+                            snapshot[0] = plumpy.Bundle(p, dereference=isinstance(p, plumpy.ContextMixin))
                         log.append(['checkpoint', idx, to, len(p.trace), 'lag', lag])
                         if lag <= 0:
                             crash[0] = True
@@ -120,7 +139,7 @@ def run_with_crashes(make_proc, crash_points, resume_for_wait, transport=None, b
             if not crash[0] or incon:
                 result = {'views': _views(proc), 'trace': list(proc.trace), 'task': lifecycle.Run._task_info(task),
                           'loop_errors': [str(c.get('message')) + ':' + repr(c.get('exception')) for c in drv.errors],
-                          'restores': restores, 'log': log, 'inconclusive': incon, 'boundaries': boundary[0]}
+                          'restores': restores, 'log': log, 'inconclusive': incon, 'boundaries': boundary[0], 'restore_mismatches': mismatches}
         if result is not None:
             return result
         if restores > max_restores:
